@@ -48,11 +48,12 @@ class Inline:
         self.kinds = set()
         self.quotes = dict(QUOTE_TAGS)
         self.extra = dict(extra_quotes)
+        self.extra_chars = ''.join(q[0] for q in self.extra)      # delimiter characters of the defined quotes: not used as plain text
 
-    def words(self):
+    def words(self, banned=''):
         self.kinds.add('word')
         w = plain(self.rng)
-        if self.rng.random() < 0.12:
+        if self.rng.random() < 0.12 and '$' not in banned and '$' not in self.extra_chars:
             # a `$n` / `$$n` in running text or in a caption is text, not a group of the enclosing template
             w += ' ' + self.rng.choice(['$1', '$2', '$$1', '$0', '$9', 'US$5'])
             self.kinds.add('dollar')
@@ -62,9 +63,9 @@ class Inline:
     def _pair(s):
         return s, esc(s)
 
-    def special(self):
+    def special(self, banned=''):
         self.kinds.add('special')
-        c = self.rng.choice(['<', '>', '&', '"', "'", '(', ')', '!', '^', '$', '%', '+', '=', ';', ','])
+        c = self.rng.choice([x for x in ['<', '>', '&', '"', "'", '(', ')', '!', '^', '$', '%', '+', '=', ';', ','] if x not in banned and x not in self.extra_chars])
         return c, esc(c)
 
     def term(self, depth, banned=''):
@@ -72,9 +73,9 @@ class Inline:
         rng = self.rng
         k = rng.random()
         if depth <= 0 or k < 0.30:
-            return self.words()
+            return self.words(banned)
         if k < 0.36:
-            return self.special()
+            return self.special(banned)
         if k < 0.60:
             return self.quote(depth, banned)
         return self.replacement(depth, banned)
@@ -88,7 +89,7 @@ class Inline:
         rng = self.rng
         choices = [q for q in list(self.quotes) + list(self.extra) if q[0] not in banned]
         if not choices:
-            return self.words()
+            return self.words(banned)
         q = rng.choice(choices)
         self.kinds.add('quote' + q)
         if q in self.extra:
@@ -106,6 +107,17 @@ class Inline:
                 body += 'x'
             return q + body + q, o + esc(body) + c
         s, h = self.seq(depth - 1, banned + q[0])
+        if rng.random() < 0.2:
+            # the quoted text ends with a url: the closing delimiter follows it directly and is not part of it
+            url = rng.choice([u for u in URLWORDS if u.startswith('http')])
+            form = rng.randrange(3)
+            if form == 0:
+                s, h = s + ' ' + url, h + ' <a href="%s">%s</a>' % (esc_attr(url), esc_attr(url))
+            elif form == 1:
+                s, h = s + ' <%s>' % url, h + ' <a href="%s">%s</a>' % (esc_attr(url), esc_attr(url))
+            else:
+                s, h = url + ' ' + s, '<a href="%s">%s</a> ' % (esc_attr(url), esc_attr(url)) + h
+            self.kinds.add('url-at-quote-edge')
         # quoted text cannot begin or end with white space or end with a backslash; our terms never do
         return q + s + q, o + h + c
 
@@ -141,7 +153,7 @@ class Inline:
                 self.kinds.add('replacement-in-caption')
                 continue
             w = plain(rng, 1, 2)
-            if rng.random() < 0.15:
+            if rng.random() < 0.15 and '$' not in self.extra_chars and '$' not in banned:
                 w += ' ' + rng.choice(['$1', '$2', '$$1', '$$2'])
                 self.kinds.add('dollar-in-caption')
             parts.append(self._pair(w))
@@ -234,11 +246,18 @@ class C07(Prop):
             repl = rng.choice([None, '[R]'])
             defs = []
             extra = {}
-            if mode == 0 and rng.random() < 0.3:
+            pre = None
+            if rng.random() < 0.35:
                 for q, o, c, sep in rng.sample([('=', '<u>', '</u>', '|'), ('%%', '<q>', '</q>', '|'), ('^^', '<sup>', '</sup>', '||'),
-                                                ('$', '<var>', '</var>', '|')], rng.randint(1, 2)):
+                                                ('$', '<var>', '</var>', '|'), ('==', '<mark>', '</mark>', '|'), ('+', '<ins>', '</ins>', '|'),
+                                                ('@@', '<samp>', '</samp>', '||')], rng.randint(1, 2)):     # not `!`: `![a](b)` is an image
+                    if any(q[0] == x[0] for x in extra):
+                        continue
                     defs.append("%s = '%s%s%s'" % (q, o, sep, c))
                     extra[q] = (o, c, sep == '|')
+                if mode != 0 or rng.random() < 0.3:
+                    # defined by an earlier, trusted call of the same session
+                    pre, defs = '\n'.join(defs), []
             g = Inline(rng, mode, repl if repl is not None else DEFAULT_REPLACEMENT, extra)
             s, h = g.seq(3, '', 1, 4)
             # running text: the line starts with a word so that it is not a line-level element
@@ -249,12 +268,16 @@ class C07(Prop):
                 s2, h2 = g.seq(1, '', 1, 2)
                 s, h = s + ' \\\n' + s2, h + '<br>\n' + h2
             src = ('\n'.join(defs) + '\n\n' if defs else '') + s
-            yield {'src': src, 'expected': '<p>' + h + '</p>', 'safeMode': mode, 'htmlReplacement': repl, 'kinds': sorted(g.kinds)}
+            yield {'src': src, 'expected': '<p>' + h + '</p>', 'safeMode': mode, 'htmlReplacement': repl, 'kinds': sorted(g.kinds), 'pre': pre}
 
     def execute(self, case, ctx, res):
         st = {'src': case['src'], 'safeMode': case['safeMode'], 'htmlReplacement': case.get('htmlReplacement'), 'reset': True, 'callback': True}
-        outs_i, _, ok = run_session(ctx, [st], res, case)
-        a = outs_i[0]
+        steps = [st]
+        if case.get('pre'):
+            st['reset'] = False
+            steps = [{'src': case['pre'], 'safeMode': 0, 'reset': True, 'callback': True}, st]
+        outs_i, _, ok = run_session(ctx, steps, res, case)
+        a = outs_i[-1]
         if a[0] != 'ok':
             res.violation('render failed on an inline paragraph: %s' % (a,), case)
             return
